@@ -93,6 +93,21 @@ CHECKS["C08"] = dict(
     design="DESIGN.md §6 C08",
 )
 
+CHECKS["C12"] = dict(
+    category="model_checking",
+    technique="explicit-state search (BX) over all operation histories on the real SessionPool with real sessions under virtual time, checked step by step against a reference model and invariants",
+    text="Every history of depth 5 (thorough 6) over {new, new+stream, get, open(s), fin(s), die(s), cleanup_expired, advance(I/2 | I | T)} with <= 2 (3) sessions x 4 (6) configurations of (check interval, idle timeout, min_idle incl. 0 and timeout < interval), replayed from scratch on fresh real objects; after every step: Get never returns a closed or already handed-out session and never ignores an available one, housekeeping never closes a session with an open stream or one that was handed out, the minimum number of idle sessions survives each pass, idle_count agrees with the model; after timeout + 2 intervals of inactivity no surplus idle session remains.",
+    note="Trusted: virtual clock, sessions over vpipes with a scripted peer; 'in use' = stream table non-empty. Two keys caused by 'session in the idle map while in use' are open known findings.",
+    design="DESIGN.md §6 C12",
+)
+CHECKS["C13"] = dict(
+    category="model_checking",
+    technique="explicit-state search (BX) over request histories driven through the real Client and Server over TLS on loopback (LX)",
+    text="Every history of length <= 6 (thorough 8) over {start request, finish request i} x min_idle in {0,1,2}: per request the identity of the session that served it and the number of new TLS connections seen by a counting relay in front of the real server; a request that starts while no other is active and a healthy session exists must be served by an existing session without dialling; open sessions <= peak concurrency + min_idle after every step.",
+    note="Trusted: timers set to 1 h so only the history matters; loopback TLS; one schedule per history. Reuse is broken on the unchanged tree (open known finding keyed by the shortest failing history).",
+    design="DESIGN.md §6 C13",
+)
+
 NOT_YET = {
 }
 
